@@ -16,6 +16,13 @@ package derive
 
 import "go/types"
 
+// IsErrorType returns whether a type is the predeclared error interface itself.
+// Generated signatures spell function results as error, and function types are
+// invariant, so a function result has to be exactly error.
+func IsErrorType(t types.Type) bool {
+	return types.Identical(t, types.Universe.Lookup("error").Type())
+}
+
 // IsError returns whether a type implements the Error interface.
 func IsError(t types.Type) bool {
 	typ, ok := t.(*types.Named)
